@@ -143,14 +143,18 @@ pub fn create_ciphers(shared_secret: &[u8]) -> (r: Result<(Aes128Cfb8Enc, Aes128
 
 /// packet-level events of one connection (ghost)
 pub enum Ev {
-    /// a complete frame with this packet id was taken from the client
-    Recv(VarInt),
+    /// a complete frame with this packet id and this body was taken from the client
+    Recv(VarInt, Seq<u8>),
     /// this packet was handed to the socket (one complete frame, one write)
     Send(Sent),
     /// the keep-alive timer fired while keep-alives are being served
     Tick,
     /// the client echoed this keep-alive id
     Echo(u64),
+    /// the wall clock was read (seconds since the epoch)
+    Clock(u64),
+    /// a routing adapter is about to be consulted: 0 discovery, 1 filter, 2 strategy
+    Routing(int),
 }
 
 /// `CipherStream<S, Aes128Cfb8Enc, Aes128Cfb8Dec>`: the client's future input as a byte cursor, the plaintext
@@ -198,6 +202,11 @@ impl Reader {
 /// Rust guarantees that no allocation exceeds isize::MAX bytes (trusted language invariant)
 pub broadcast axiom fn axiom_vec_u8_len(v: Vec<u8>)
     ensures #[trigger] v@.len() <= isize::MAX;
+
+/// the localized timeout message for this locale was sent as a Disconnect (C07)
+pub open spec fn timeout_disc(e: Ev, locale: Option<Seq<char>>) -> bool {
+    e matches Ev::Send(Sent::Disconnect { reason }) && (localize_oracle(locale, "disconnect_timeout"@) matches Ok(s) && s@ == reason)
+}
 
 // ------------------------------------------------------------------ event-log vocabulary
 pub open spec fn pushed(old_ev: Seq<Ev>, new_ev: Seq<Ev>, e: Ev) -> bool {
